@@ -792,6 +792,119 @@ def c19(tier):
     return v.finish()
 
 
+# ------------------------------------------------------------------------------------------ C05 / C16
+
+FAULTS_CFG = """SPECIFICATION Spec
+CONSTANTS
+ Cross = %s
+ WithAttacker = %s
+ MaxSteps = %d
+INVARIANTS TypeOK EmitFull
+"""
+TEARDOWN_CFG = """SPECIFICATION Spec
+CONSTANTS
+ c1 = c1
+ c2 = c2
+ Conns = {c1, c2}
+ InCap = 1
+ OutCap = 1
+ MaxSend = %d
+ SubsOf <- %s
+ WillOf <- %s
+INVARIANTS AtDone
+PROPERTIES TornDown CloseReturns
+"""
+
+
+def faults_run(v, pid, plan):
+    for cross, att, d in plan:
+        name = "faults-%s-%s-%d" % (cross, att, d)
+        r = core.cached_tlc(name, "Faults", FAULTS_CFG % (cross, att, d), workers=1, timeout=600)
+        v.tlc(name, r)
+        scen = core.behaviours(r.lines)
+        results = core.run_sharded(["faults"], scen, timeout=2400, died_is_result=True)
+        died = [x for x in results if x.get("died")]
+        res = core.merge([x for x in results if not x.get("died")])
+        for x in died:
+            if pid == "C05" and "panic" in (x.get("stderr") or "") + (x.get("stdout") or "") or pid == "C05" and x.get("exit") == 2:
+                # the broker runs inside the child: a dead child is the observation 'the broker process died'
+                v.mismatch({"what": "the broker process died while a fault sequence was executed (exit %s): %s" % (
+                    x.get("exit"), (x.get("stderr") or "")[:300].replace("\n", " | ")), "replay": {"shard": x.get("shard"), "configuration": name}})
+            else:
+                raise Infra("faults harness child died (exit %s): %s" % (x.get("exit"), (x.get("stderr") or "")[:600]))
+        if res.get("counts", {}).get("infra"):
+            raise Infra("faults harness: %s" % res.get("notes")[:3])
+        mine = [m for m in res.get("mismatches", []) if m.get("tag") == pid]
+        foreign = [m for m in res.get("mismatches", []) if m.get("tag") != pid]
+        v.cov["parts"][name] = {"sequences": res.get("evaluations", 0), "steps": res.get("steps", 0), "mismatching": res.get("nmismatch", 0),
+                                "own": len(mine), "diverged_foreign": len(foreign), "unreproduced": res.get("counts", {}).get("unreproduced", 0),
+                                "skipped_after_violation": res.get("counts", {}).get("skipped_after_violation", 0)}
+        v.cov["evaluations"] += res.get("evaluations", 0)
+        v.cov["traces_validated_against_impl"] += res.get("evaluations", 0)
+        v.cov["distinct_nontrivial"] += res.get("evaluations", 0)
+        v.mismatches(mine)
+        if foreign:
+            v.notes.append("%s: %d sequences diverged on observables of another property, e.g. %s" % (name, len(foreign), foreign[0]["what"][:200]))
+        v.add_samples(res.get("samples") or [], 1)
+        for n in res.get("notes", [])[:3]:
+            v.notes.append(n)
+
+
+@check("C16")
+def c16(tier):
+    v = Verdict("C16", tier, level="model_checking")
+    thorough = tier == "thorough"
+    # design: the teardown / flow-control fragment, liveness under fairness
+    for name, maxsend, subs, wills in [("teardown-pub-sub", 2, "PubSubSubs", "WillFirst")] + (
+            [("teardown-cross", 2, "CrossSubs", "WillBoth")] if thorough else []):
+        cfg = TEARDOWN_CFG % (maxsend, subs, wills)
+        r = core.cached_tlc(name, "MCTeardown", cfg, workers=8, timeout=2400)
+        v.tlc(name, r)
+    faults_run(v, "C16", [("FALSE", "FALSE", 3 if not thorough else 4), ("TRUE", "FALSE", 3 if not thorough else 4)])
+    v.cov["rule"] = ("TLC: leads-to 'ended ~> torn down' and 'Server.Close ~> returned' under fairness on the Teardown specification (goroutine life cycles, ring capacities, "
+                     "fan-out that blocks on a full open ring, will fan-out inside teardown). Replay: every fault sequence of bounded length enumerated by TLC from Faults (bursts of 6 KB "
+                     "publishes into 16 KiB rings, peers that stop reading, DISCONNECT / cut / malformed / oversized packet, Server.Close, both orders of ending) on a real broker: "
+                     "teardown-finished events, return of Server.Close, goroutine dump filtered to library frames. distinct_nontrivial = sequences executed")
+    v.cov["exhaustive"] = True
+    v.assumptions += ["'bounded time' is judged with a 6 s deadline; a stalled step counts only if it reproduces on a second run of the same sequence",
+                      "intermediate expectations only where no open connection has stopped reading (sufficient condition for the property's proviso); at the end of every sequence all peers are gone and everything must be torn down"]
+    return v.finish()
+
+
+@check("C05")
+def c05(tier):
+    v = Verdict("C05", tier, level="fault_enumeration")
+    thorough = tier == "thorough"
+    faults_run(v, "C05", [("FALSE", "TRUE", 2 if not thorough else 3), ("TRUE", "TRUE", 2 if not thorough else 3)])
+    # the gated race of a delivery with the teardown of its target (yield point wm.checked)
+    p = core.run_harness(["race", "-n", "10" if not thorough else "100"], timeout=600)
+    if p.returncode != 0:
+        v.mismatch({"what": "the broker process died in the delivery/teardown race: %s" % p.stderr[:300].replace("\n", " | "), "replay": {"schedule": "wm.checked race"}})
+    else:
+        res = json.loads(p.stdout.strip().splitlines()[-1])
+        if res.get("counts", {}).get("infra"):
+            raise Infra("race harness: %s" % res.get("notes")[:2])
+        account(v, res, "delivery-vs-teardown-race(gated)")
+    # the first-packet classes of the Broker specification run in child processes: a dead child is the observation 'the broker process died'
+    behs = broker_behaviours(v, "AdmitSpec", 3 if not thorough else 4, "cover")
+    results = core.run_sharded(["brokerreplay"], behs, timeout=1200, died_is_result=True)
+    died = [x for x in results if x.get("died")]
+    res = core.merge([x for x in results if not x.get("died")])
+    v.cov["parts"]["first-packets-in-child-processes"] = {"behaviours": len(behs), "children": len(results), "children_died": len(died)}
+    v.cov["evaluations"] += len(behs)
+    for x in died:
+        v.mismatch({"what": "the broker process died while handling hostile input (exit %s): %s" % (x.get("exit"), (x.get("stderr") or "")[:300].replace("\n", " | ")),
+                    "replay": {"shard": x.get("shard")}})
+    v.mismatches([m for m in res.get("mismatches", []) if m.get("tag") in ("C05", "C11")])
+    v.cov["rule"] = ("fault enumeration: 12 kinds of hostile input (garbage / truncated / oversized / cut at byte boundaries, before and after CONNECT, second CONNECT, zero-length topic) at "
+                     "every position of every fault sequence of Faults (bursts, stalled readers, ends of other connections), plus the 14 refused-first-packet kinds of the Broker "
+                     "specification in child processes: the process stays alive, a witness publisher/subscriber pair keeps receiving exactly its own traffic after every step. "
+                     "distinct_nontrivial = sequences executed")
+    v.cov["exhaustive"] = True
+    v.assumptions += ["timing of a teardown relative to foreign deliveries is whatever the scheduler produces (the ring-pointer race is exercised by bursts towards connections that are being cut)"]
+    return v.finish()
+
+
 # ------------------------------------------------------------------------------------------ misc
 
 def setup():
